@@ -164,3 +164,24 @@ func TestGenStats(t *testing.T) {
 		fmt.Printf("%7d %s\n", cnt[k], k)
 	}
 }
+
+func TestSibling(t *testing.T) {
+	if os.Getenv("C09_SIB") == "" {
+		t.Skip()
+	}
+	for _, eng := range []string{"interpreter", "compiler"} {
+		specs := []modSpec{{ID: 1, Elem: -1}}
+		hs := map[string]*history{
+			"compile twice, instantiate cm1, close cm0, probe, instantiate cm1 again": hist(eng, specs,
+				step{Op: "compile", Spec: 0}, step{Op: "compile", Spec: 0}, step{Op: "inst", CM: 1, Name: "a"},
+				step{Op: "closecm", CM: 0}, step{Op: "dropcm", CM: 0}, step{Op: "gc"}, step{Op: "inst", CM: 1, Name: "b"}),
+			"compile, InstantiateWithConfig same bytes, close that instance, instantiate cm0": hist(eng, specs,
+				step{Op: "compile", Spec: 0}, step{Op: "instbytes", Spec: 0, Name: "a"}, step{Op: "close", Inst: 0},
+				step{Op: "inst", CM: 0, Name: "b"}),
+		}
+		for name, h := range hs {
+			res := runHistory(h, false)
+			fmt.Printf("%s: %s\n   violation=%q harness=%q labels=%v\n", eng, name, res.Violation, res.Harness, res.Labels)
+		}
+	}
+}
